@@ -35,6 +35,9 @@ class Ctx:
         self.notes = []
 
     def cleanup(self):
+        if os.environ.get("VERIF_KEEP"):
+            print("scratch kept:", self.scratch)
+            return
         shutil.rmtree(self.scratch, ignore_errors=True)
 
     def ensure_overlay(self):
